@@ -142,3 +142,32 @@ pub fn eval_with(bindings: &[(&str, &TV)], src: &str) -> (String, HeapRc) {
     let r = guarded(|| crate::run::eval_expr_src(src, &heap, &env));
     (outcome_wire(&r, &heap), heap)
 }
+
+/// call a built-in directly (as `f(args)` would after evaluating its arguments)
+pub fn call_builtin_real(name: &str, args: &[TV]) -> (String, HeapRc) {
+    use blots_core::functions::{BuiltInFunction, FunctionDef};
+    let heap = new_heap();
+    let env = Rc::new(Environment::new());
+    let vals: Vec<Value> = args.iter().map(|a| a.to_value(&heap)).collect();
+    let b = BuiltInFunction::from_ident(name).expect("built-in name");
+    let r = guarded(|| {
+        FunctionDef::BuiltIn(b)
+            .call(Value::BuiltIn(b), vals.clone(), Rc::clone(&heap), Rc::clone(&env), 0, "")
+            .map_err(|e| e.message.clone())
+    });
+    (outcome_wire(&r, &heap), heap)
+}
+
+pub fn model_builtin(model: &mut Model, name: &str, args: &[TV]) -> String {
+    let req = format!("builtin {} ({})", name, args.iter().map(|a| a.wire()).collect::<Vec<_>>().join(" "));
+    model.ask(&req)
+}
+
+/// numbers for which `range` would try to allocate an enormous list (a resource hazard of
+/// the real code that is outside C01's "panic / abort" wording; avoided, and documented)
+pub fn range_hazard(args: &[TV]) -> bool {
+    args.iter().any(|a| match a {
+        TV::Num(n) => n.is_finite() && n.abs() >= 2.0e6 && n.abs() <= 5.0e9,
+        _ => false,
+    })
+}
